@@ -1,6 +1,7 @@
 import NbioVerif.Properties.C01
 import NbioVerif.Properties.ConnTimer
 import NbioVerif.Properties.ConnClose
+import NbioVerif.Lemmas.SrcBridgeConn
 #print axioms ConnFull.inv_run
 #print axioms ConnFull.c01_integrity
 #print axioms ConnFull.c01_drained
@@ -36,3 +37,11 @@ import NbioVerif.Properties.ConnClose
 #print axioms ConnFull.closeNow_eq_flip_teardown
 #print axioms ConnFull.c01_accepted_is_reported
 #print axioms ConnFull.c01_reported_needs_wf
+#print axioms ConnFull.sendfileNoDup_step
+#print axioms ConnFull.reach_sendfileNoDup
+#print axioms ConnFull.sendfileLoop_denyDup_wl
+#print axioms ConnFull.c01_sendfile_nodup
+#print axioms ConnFull.src_maxCache
+#print axioms ConnFull.fileRange_eq
+#print axioms ConnFull.foldPending_eq
+#print axioms ConnFull.pending_length
